@@ -1,5 +1,6 @@
 """pyvc.values -- interpreter-level values, exploration context (path condition, forking)."""
 from __future__ import annotations
+from .core import tid
 import itertools
 from .core import (z3, PyVal, C, R, A, TAGS, VABSENT, VNONE, StringSort, IntSort, BoolSort, SeqPV,
                    EMPTY_VALS, lift, lower, simp, head_tag, NotConcrete, mk_bool, mk_int, mk_float,
@@ -198,12 +199,15 @@ class PathResult:
 class Ctx:
     """One exploration: DFS over decision trails by re-execution."""
 
-    def __init__(self, timeout_ms=3000):
+    def __init__(self, timeout_ms=20):
         self.worklist = [[]]
         self.timeout_ms = timeout_ms
         self.stats = {"paths": 0, "forks": 0, "feas_checks": 0, "feas_unknown": 0}
         self.max_paths = 20000
         # per-path state
+        self.feas_cache = {}
+        self.feas_keep = []
+        self.summary_cache = {}
         self._reset_path([])
         self.axiom_log = set()
 
@@ -213,8 +217,10 @@ class Ctx:
         self.trail = []
         self.pc = []
         self.pc_ids = set()
-        self.solver = z3.Solver()
+        self.solver = z3.SimpleSolver()
         self.solver.set("timeout", self.timeout_ms)
+        self.solver.set("smt.mbqi", False)
+
         self.known_tags = {}
         self.overlay = {}          # (id(live obj), attr) -> value
         self.live_wrap = {}        # id(live container) -> HDict/HList/HSet
@@ -231,6 +237,7 @@ class Ctx:
         self.call_depth = 0
         self.in_call_under_proof = 0
         self.ghost = {}
+        self.opaque_specs = 0
 
     def add(self, fact):
         """Assume a fact on the current path."""
@@ -238,13 +245,13 @@ class Ctx:
             if not fact:
                 raise PathKilled()
             return
-        f = simp(fact)
+        f = fact if z3.is_quantifier(fact) else simp(fact)
         if z3.is_true(f):
             return
         if z3.is_false(f):
             raise PathKilled()
         self.pc.append(f)
-        self.pc_ids.add(f.get_id())
+        self.pc_ids.add(tid(f))
         self.solver.add(f)
 
     def axiom(self, fact, name=None):
@@ -253,17 +260,59 @@ class Ctx:
             self.axiom_log.add(name)
         self.add(fact)
 
+    def dict_term(self, vals, n):
+        """PyVal term of a dict with content `vals` and size `n`; DId is a bijection (ground instances)."""
+        from .core import mk_dict, DArr, DN, DId
+        t = mk_dict(vals, n)
+        key = ("dictterm", tid(t))
+        if key not in self.ghost:
+            self.ghost[key] = True
+            i = DId(vals, n)
+            self.axiom(z3.And(DArr(i) == vals, DN(i) == n), "dict id <-> (content, size) bijection")
+        return t
+
+    def dict_view(self, t):
+        """(vals, n) of a dict-valued term."""
+        from .core import dvals, dn, DArr, DN, DId, A
+        v, n = simp(dvals(t)), simp(dn(t))
+        d = simp(A["d"](t))
+        if not (z3.is_app(d) and d.decl().eq(DId)):
+            key = ("dictview", tid(d))
+            if key not in self.ghost:
+                self.ghost[key] = True
+                self.axiom(DId(DArr(d), DN(d)) == d, "dict id <-> (content, size) bijection")
+        return v, n
+
     def known(self, fact):
         """Syntactic: the (simplified) fact is literally on the path condition."""
         f = simp(fact)
-        return z3.is_true(f) or f.get_id() in self.pc_ids
+        return z3.is_true(f) or tid(f) in self.pc_ids
 
     def feasible(self, cond):
         self.stats["feas_checks"] += 1
+        import time as _t, os as _os
+        ck = (hash(frozenset(self.pc_ids)), len(self.pc), tid(cond))
+        hit = self.feas_cache.get(ck)
+        if hit is not None:
+            self.stats["feas_cached"] = self.stats.get("feas_cached", 0) + 1
+            return hit
+        t0 = _t.time()
         self.solver.push()
         self.solver.add(cond)
         r = self.solver.check()
         self.solver.pop()
+        self.feas_cache[ck] = (r != z3.unsat)
+        self.feas_keep.append(cond)
+        dt = _t.time() - t0
+        if r == z3.unsat:
+            b = "unsat_lt10" if dt < 0.01 else ("unsat_lt30" if dt < 0.03 else ("unsat_lt60" if dt < 0.06 else "unsat_ge60"))
+            self.stats[b] = self.stats.get(b, 0) + 1
+        elif r == z3.sat:
+            b = "sat_lt10" if dt < 0.01 else ("sat_lt30" if dt < 0.03 else ("sat_lt60" if dt < 0.06 else "sat_ge60"))
+            self.stats[b] = self.stats.get(b, 0) + 1
+        self.stats["feas_time"] = self.stats.get("feas_time", 0.0) + dt
+        if _os.environ.get("PYVC_TRACE") and dt > 0.3:
+            print("SLOW feasible %.2fs -> %s : %s" % (dt, r, str(cond)[:200]), flush=True)
         if r == z3.unknown:
             self.stats["feas_unknown"] += 1
         return r != z3.unsat
@@ -309,7 +358,10 @@ class Ctx:
             k = definite[0]
             self.trail.append(k)
             return k
-        feas = [i for i in live if self.feasible(conds[i])]
+        feas = []
+        for n_, i in enumerate(live):
+            if self.feasible(conds[i]):
+                feas.append(i)
         if not feas:
             raise PathKilled()
         k = feas[0]
@@ -328,6 +380,10 @@ class Ctx:
         if z3.is_true(c):
             return True
         if z3.is_false(c):
+            return False
+        if tid(c) in self.pc_ids:
+            return True
+        if tid(simp(z3.Not(c))) in self.pc_ids:
             return False
         k = self.choose([c, z3.Not(c)])
         return k == 0
